@@ -48,11 +48,8 @@ class CliRun:
         self.k = k
         self.w = fe_world.World(REPO, base, echo_cap=30, cleanup_delay=0.03 if k % 2 else 0.0)
         import frontend.client.commands as commands
-        import frontend.client.services.service_name_handler as snh
+        snh = fe_world.fresh_alias_registry(self.w.cdir)
         self.commands, self.snh = commands, snh
-        snh._PROGRAM_DIR_PATH = self.w.cdir
-        snh.SERVICE_MAPPING_PATH = self.w.cdir / "service_mapping.json"
-        snh.read_service_mapping, snh.write_service_mapping = snh._get_service_mapping_read_and_write_function()
         self.ev = []
         self.sid = ""
         self.keys = []
